@@ -38,7 +38,8 @@ EXPLANATION = (
     'user-defined field types and __set__ picks validate_type_only exactly then. R7: top-level '
     'primitives are decoded with validation on. Decides these structural parts, not value '
     'behaviour.'
-    ' R8 (imported from C06-R3): decoding a primitive refuses only by ValidationError -- base64/strptime failures are converted.')
+    ' R8 (imported from C06-R3): decoding a primitive refuses only by ValidationError -- base64/strptime failures are converted.'
+    ' R10 (condition drift): the 72 refusal sites of stone_validators / stone_serializers / stone_base raise under the canonical path conditions recorded in reference/conditions.json.')
 ASSUMPTIONS = [
     'the reading of bounds is the one the property quantifies with (bound-1, bound, bound+1: the '
     'bound itself is admissible); the language reference does not spell out inclusiveness',
@@ -548,6 +549,10 @@ def run(pm, ctx):
     ctx.import_rules(pm, 'C06', {'C06-R3'}, 'C08-R8',
                      'library calls on untrusted scalars convert every library exception to '
                      'ValidationError (shared with C06-R3)')
+    from .. import conddrift
+    conddrift.run(pm, ctx, 'C08-R10', 'runtime',
+                  'each runtime refusal (ValidationError / AssertionError raise) happens under the '
+                  'condition confirmed on the reference tree', 'raised')
 
 def _anchoring(init_func, method):
     """Classify how the runtime compiles the pattern: 'whole' | 'prefix' | 'search' | '?'"""
